@@ -54,6 +54,20 @@ func genC09(rt *rapid.T) c09Prog {
 			}
 		}
 	}
+	// Scripted tail (drawn last so that older replay files keep their meaning): a read note that runs ahead of
+	// the received mark, an unload/reload of the topic, then a received note that lags behind the read mark.
+	// Uniform actions line this up only at the thorough tier (seeded change C09-m3).
+	if rapid.IntRange(0, 3).Draw(rt, "tail") == 0 {
+		cl := rapid.IntRange(0, 7).Draw(rt, "tailclient")
+		tp := rapid.IntRange(0, 2).Draw(rt, "tailtopic")
+		lag := rapid.SampledFrom([]string{"curp1", "curp1", "one", "mid"}).Draw(rt, "taillag")
+		p.Acts = append(p.Acts,
+			c09Act{Client: cl, Kind: "sub", Topic: tp},
+			c09Act{Client: cl, Kind: "note", Topic: tp, What: "read", SeqRef: "last"},
+			c09Act{Client: cl, Kind: "reload", Topic: tp},
+			c09Act{Client: cl, Kind: "note", Topic: tp, What: "recv", SeqRef: lag},
+		)
+	}
 	return p
 }
 
